@@ -9,8 +9,8 @@ from ..cfg import CFG, ENTRY, EXIT, walk_own
 from ..charclass import S, members
 from ..core import PKG, Report
 from ..domain import CONFIG, CONST, ENUM, IDENT, NUM, WORD
-from .effects import (bind_call, callee_of, constant_of, effect_argument, effect_sites, in_context, operand_av, performing,
-                      state_dependence)
+from .effects import (bind_call, callee_of, constant_of, effect_argument, effect_sites, in_context, local_sources, operand_av,
+                      performing, root_canonical, state_dependence)
 
 LEVEL = ("effect analysis: every filesystem/process effect site of the package is enumerated; its path operand (string "
          "structure from the abstract interpreter) must be project_dir/package_dir joined with literal or sanitised components, "
@@ -20,7 +20,21 @@ LEVEL = ("effect analysis: every filesystem/process effect site of the package i
          "process depends on what the filesystem already holds, apart from the refusal of an existing directory; the overwrite "
          "flag reaches Config unmodified.")
 
-SAFE = {CONFIG, CONST, WORD, IDENT, NUM, ENUM}
+# what the output directories themselves may be made of: the user's own choice (--output-path, project / package name overrides,
+# the working directory) or the sanitised title
+ROOT = {CONFIG, CONST, WORD}
+# what a computed component BELOW an output directory may be made of: text of the package, a number, an enum member, or the result of
+# a sanitiser whose alphabet E6 bounds (IDENT, WORD). Configuration text is not among them: only the choice of the output location is
+# the user's own - a name from the configuration that becomes a file or directory name below it (a module-name override, a prefix)
+# confines the generation no better than a name from the document unless it has passed a sanitiser
+SAFE = {CONST, WORD, IDENT, NUM, ENUM}
+OUTPUT_DIRS = ("project_dir", "package_dir")
+
+
+def _outdir(text: str) -> str:
+    """'project_dir' / 'package_dir' when the expression reads that attribute of the project (`self.package_dir`), else ''"""
+    head, _, last = text.rpartition(".")
+    return last if head.isidentifier() and last in OUTPUT_DIRS else ""
 
 
 def run(rep: Report, ctx: Any) -> str:
@@ -28,8 +42,11 @@ def run(rep: Report, ctx: Any) -> str:
     it, ji = ctx.flow
     ch = ctx.chars
     t = ctx.tables
-    rep.rule("R19.1", "every effect's path is <project_dir|package_dir>/<CONST or sanitised component>...; sanitiser alphabets "
-                      "contain no path separator / NUL and results cannot be '.' or '..'; post-hooks run with cwd=project_dir")
+    rep.rule("R19.1", "every effect's path is <project_dir|package_dir>/<CONST or sanitised component>...: only the output directories "
+                      "themselves may carry the user's configuration verbatim, every computed component below them - whether the name "
+                      "comes from the document or from the configuration - is the result of a sanitiser (IDENT / WORD), a number, an "
+                      "enum member or text of the package; sanitiser alphabets contain no path separator / NUL and results cannot be "
+                      "'.' or '..'; post-hooks run with cwd=project_dir")
     rep.rule("R19.2", "no effect before the existing-directory decision; the decision returns an error unless config.overwrite; "
                       "the --overwrite flag reaches Config.overwrite unmodified")
     rep.rule("R19.3", "models/ and api/ are removed on every path before being rebuilt, and filled only once they are known to be new: "
@@ -54,7 +71,8 @@ def run(rep: Report, ctx: Any) -> str:
         av = operand_av(it, e.target)
         if e.what in ("replace", "rename") and (av is None or "Path" not in av.types):
             continue
-        real.append((e, av))
+        # the directory a path starts from is named by value: a local it is carried through (`pkg = self.package_dir`) is followed
+        real.append((e, root_canonical(ix, av, [e.func, e.site_func])))
     # the floor counts destinations (kind of effect + structure of its path: literal text, a mark per computed component, the directory
     # it starts from), not syntactic sites: one helper writing for several callers, or several sites writing the same kind of file, count
     # by what they write to
@@ -78,17 +96,17 @@ def run(rep: Report, ctx: Any) -> str:
         alts = av.alts
         if alts is None:
             # a bare directory field (self.project_dir / self.package_dir / cwd variable bound to it)
-            ok = bool(av.labels) and av.labels <= {CONFIG, CONST, WORD} and _rooted(e.func.node, e.target)
+            ok = bool(av.labels) and av.labels <= ROOT and _rooted(e.func.node, e.target)
             rep.check(ok, "R19.1", key, f"path operand `{norm(e.target)}` is not one of the output directories", e.where,
                       lhs=sorted(av.labels), rhs="self.project_dir / self.package_dir")
             continue
         bad: list[str] = []
         for alt in alts:
             first = alt[0] if alt else None
-            if first is None or first.kind != "hole" or not (first.text.endswith("project_dir") or first.text.endswith("package_dir")):
+            if first is None or first.kind != "hole" or not _outdir(first.text):
                 bad.append(f"does not start at the output directory: {list(alt)[:3]}")
                 continue
-            if not first.labels <= {CONFIG, CONST, WORD}:
+            if not first.labels <= ROOT:
                 bad.append(f"output directory derived from {sorted(first.labels)}")
             for p in alt[1:]:
                 if p.kind == "lit":
@@ -97,11 +115,11 @@ def run(rep: Report, ctx: Any) -> str:
                         bad.append(f"literal component {p.text!r}")
                 elif p.kind == "hole":
                     if not p.labels <= SAFE:
-                        bad.append(f"component `{p.text}` labelled {sorted(p.labels - SAFE)}")
+                        bad.append(f"component `{p.text}` labelled {sorted(p.labels - SAFE)}: not sanitised")
                 else:
                     bad.append("macro result in a path")
         rep.check(not bad, "R19.1", key, f"path may leave the output directory: {bad[:3]}", e.where,
-                  lhs=[repr(list(a)) for a in sorted(alts, key=repr)][:2], rhs="<output dir>/(CONST|sanitised)*")
+                  lhs=[repr(list(a)) for a in sorted(alts, key=repr)][:2], rhs="<output dir>/(CONST|IDENT|WORD|NUM|ENUM)*")
     # sanitiser alphabets for path components
     sep = 0
     for c in "/\\\x00":
@@ -134,8 +152,8 @@ def run(rep: Report, ctx: Any) -> str:
     for fld in ("project_dir", "package_dir", "project_name", "package_name"):
         fv = it.fields.get((proj.qual, fld))
         rep.require(fv is not None, f"Project.{fld}")
-        rep.check(fv.labels <= {CONFIG, CONST, WORD}, "R19.1", f"Project.{fld}",
-                  f"Project.{fld} may contain text labelled {sorted(fv.labels - {CONFIG, CONST, WORD})}",
+        rep.check(fv.labels <= ROOT, "R19.1", f"Project.{fld}",
+                  f"Project.{fld} may contain text labelled {sorted(fv.labels - ROOT)}",
                   where=f"{proj.module.rel}:{proj.node.lineno}", lhs=sorted(fv.labels), rhs="{CONFIG, CONST, WORD}")
     # post hooks: cwd = project_dir, command from config
     runs = [(e, av) for e, av in real if e.what == "run"]
@@ -293,7 +311,7 @@ def run(rep: Report, ctx: Any) -> str:
             return None
         got = set()
         for alt in av_.alts:
-            if len(alt) < 2 or alt[0].kind != "hole" or not alt[0].text.endswith("package_dir") or alt[1].kind != "lit":
+            if len(alt) < 2 or alt[0].kind != "hole" or _outdir(alt[0].text) != "package_dir" or alt[1].kind != "lit":
                 return None
             if alt[1].text == f"/{dname}" and len(alt) == 2:
                 got.add("is")
@@ -448,14 +466,8 @@ def _strict_removal(ix: Any, e: Any, cfgs: dict) -> bool:
 
 
 def _rooted(fn: ast.AST, target: ast.expr | None) -> bool:
-    """target is self.project_dir / self.package_dir or a local assigned from one of them"""
+    """target is self.project_dir / self.package_dir, or a local that stands for nothing but these (through however many locals)"""
     if target is None:
         return False
-    t = norm(target)
-    if t in ("self.project_dir", "self.package_dir"):
-        return True
-    if isinstance(target, ast.Name):
-        for n in ast.walk(fn):
-            if isinstance(n, ast.Assign) and any(norm(x) == t for x in n.targets) and norm(n.value) in ("self.project_dir", "self.package_dir"):
-                return True
-    return False
+    srcs = local_sources(fn, target)
+    return bool(srcs) and all(_outdir(norm(x)) for x in srcs)
